@@ -594,7 +594,9 @@ impl ValueMeta for Expression {
                 None => false,
             },
             Number(meta, value) => {
-                let value = FieldElement { value: value.clone() };
+                // A literal denotes a field element: reduce it modulo the prime.
+                let p = env.prime();
+                let value = FieldElement { value: ((&*value % p) + p) % p };
                 meta.value_knowledge_mut().set_reduces_to(value)
             }
             Call { args, .. } => {
